@@ -272,6 +272,11 @@ def swap2 : Ren 2 2 where
   left := by decide
   right := by decide
 
+example :
+    showRows ((Q.bgp [(.var 0, .const 2, .var 1)] : Q 2).eval (graphStore [(1, 2, 3)])) = [[some 1, some 3]] ∧
+    showRows ((swap2.q (.bgp [(.var 0, .const 2, .var 1)])).eval (graphStore [(1, 2, 3)])) = [[some 3, some 1]] := by
+  decide
+
 /-- an initBindings instance that satisfies `Outermost` and restricts the answer -/
 example :
     let q : SelQ 2 := { ts := [(.var 0, .const 2, .var 1)], sub := none, filt := none, proj := none }
